@@ -204,48 +204,12 @@ theorem startDeferredBody_eq : Nsq.Gen.Codec.startDeferredBody = [
   "c.addToDeferredPQ(item)",
   "return nil"] := by rfl
 
-/-- `Channel.RequeueMessage` = `Model.Timing.requeue`.  Two shapes are accepted: `exitMutex.RLock` only
-around the final `put` (tree before fixes/F18), or held with a deferred unlock over the whole function
-(fixes/F18, property C05: `Channel.exit` cannot flush while the message is out of the in-flight map).
-The timing behaviour (what is popped, which delay is used) is the same in both. -/
+/-- `Channel.RequeueMessage` = `Model.Timing.requeue`.  ONLY the committed body is accepted (audit B12): `exitMutex.RLock`
+held with a deferred unlock over the whole function (F18, /repo d0f02d3, property C05: `Channel.exit` cannot flush while the
+message is out of the in-flight map) and the channel's read lock as well (F27, /repo ebb5df3, C08 audit B17: `Channel.Empty`
+— write lock — cannot run while the message is in REQ's hands).  The two older bodies (lock only around the final `put`;
+F18 without `c.RLock`) break this tie.  What is popped and which delay is used was the same in all three. -/
 theorem requeueBody_eq : Nsq.Gen.Codec.requeueBody = [
-  "msg, err := c.popInFlightMessage(clientID, id)",
-  "if err != nil {",
-  "return err",
-  "}",
-  "verifPoint(\"chan.req.afterPop\")",
-  "c.removeFromInFlightPQ(msg)",
-  "atomic.AddUint64(&c.requeueCount, 1)",
-  "if timeout == 0 {",
-  "c.exitMutex.RLock()",
-  "if c.Exiting() {",
-  "c.exitMutex.RUnlock()",
-  "return errors.New(\"exiting\")",
-  "}",
-  "err := c.put(msg)",
-  "c.exitMutex.RUnlock()",
-  "return err",
-  "}",
-  "return c.StartDeferredTimeout(msg, timeout)"] ∨ Nsq.Gen.Codec.requeueBody = [
-  "c.exitMutex.RLock()",
-  "defer c.exitMutex.RUnlock()",
-  "msg, err := c.popInFlightMessage(clientID, id)",
-  "if err != nil {",
-  "return err",
-  "}",
-  "verifPoint(\"chan.req.afterPop\")",
-  "c.removeFromInFlightPQ(msg)",
-  "atomic.AddUint64(&c.requeueCount, 1)",
-  "if timeout == 0 {",
-  "if c.Exiting() {",
-  "return errors.New(\"exiting\")",
-  "}",
-  "err := c.put(msg)",
-  "return err",
-  "}",
-  "return c.StartDeferredTimeout(msg, timeout)"] ∨ Nsq.Gen.Codec.requeueBody = [
-  -- third shape (fixes/F27, C08 audit B17; engineer life3): the channel's read lock as well, so that `Channel.Empty`
-  -- (write lock) cannot run while the message is in REQ's hands; what is popped and which delay is used are unchanged
   "c.exitMutex.RLock()",
   "defer c.exitMutex.RUnlock()",
   "c.RLock()",
